@@ -49,12 +49,23 @@ func (s *Segment) getDocStoredOffsets(docNum uint64) (indexOffset, storedOffset,
 		return 0, 0, 0, 0, 0, err
 	}
 
-	metaLenData := s.storedFieldChunkUncompressed[int(storedOffset):int(storedOffset+binary.MaxVarintLen64)]
+	// the length prefixes are read with a fixed look-ahead, which must not
+	// reach past the end of the block for a short record at its end
+	blockEnd := uint64(len(s.storedFieldChunkUncompressed))
+	metaLenEnd := storedOffset + binary.MaxVarintLen64
+	if metaLenEnd > blockEnd {
+		metaLenEnd = blockEnd
+	}
+	metaLenData := s.storedFieldChunkUncompressed[int(storedOffset):int(metaLenEnd)]
 	var read int
 	metaLen, read = binary.Uvarint(metaLenData)
 	n += uint64(read)
 
-	dataLenData := s.storedFieldChunkUncompressed[int(storedOffset+n):int(storedOffset+n+binary.MaxVarintLen64)]
+	dataLenEnd := storedOffset + n + binary.MaxVarintLen64
+	if dataLenEnd > blockEnd {
+		dataLenEnd = blockEnd
+	}
+	dataLenData := s.storedFieldChunkUncompressed[int(storedOffset+n):int(dataLenEnd)]
 	dataLen, read = binary.Uvarint(dataLenData)
 	n += uint64(read)
 
